@@ -27,6 +27,11 @@ theorem Exec.reach {c : Cfg} (x : Exec c) : ∀ n, Reach c (x.σ n) := by
     · rw [this]; exact ih
     · exact ih.next _ this
 
+/-- a collector thread exists and has not finished -/
+def collActive : CPc → Bool
+  | .done | .off => false
+  | _ => true
+
 def Lbl.isColl : Lbl → Bool
   | .consumeBegin | .pop _ | .scanBegin | .scanEnd _ | .reclaim _ | .passEnd | .exit => true
   | _ => false
@@ -35,9 +40,10 @@ def Lbl.isStop : Lbl → Bool
   | .stopReserve | .stopPublish | .stopJoin => true
   | _ => false
 
-/-- actions the client contract forbids once `stop()` has been called: new retirements and ticks -/
+/-- client calls the contract forbids while the `stop()` under consideration is in progress: new
+retirements and ticks, and further life-cycle calls (`start()`, another `stop()`) -/
 def Lbl.retiring : Lbl → Bool
-  | .callRetire _ | .callRetireAt _ _ | .clientTick => true
+  | .callRetire _ | .callRetireAt _ _ | .clientTick | .callStop | .start | .stopNoop => true
   | _ => false
 
 /-- no `retire` call is in flight -/
@@ -55,8 +61,9 @@ def stopEnabled (c : Cfg) (s : State) : Prop :=
   (step c s .stopReserve).isSome ∨ (step c s .stopPublish).isSome ∨ (step c s .stopJoin).isSome
 
 /-- The hypotheses of the termination theorem, from time `n0` on:
-* contract: `stop()` has been called, no `retire` is in flight and none starts, nobody ticks;
-* fairness: the collector thread (which always has an enabled action until it has finished) and the
+* contract: a `stop()` has been called (on a running collector), no `retire` is in flight and none
+  starts, nobody ticks, no further `start()` / `stop()` call is made;
+* fairness: the collector thread (which always has an enabled action while it exists and has not finished) and the
   stopping thread (whenever it is enabled) are eventually scheduled;
 * environment: at `n0` every critical region entered before the latest tick has been closed
   ("every region open at stop eventually closes": `n0` is a moment after the last of them closed;
@@ -67,7 +74,7 @@ structure Fair {c : Cfg} (x : Exec c) (n0 : Nat) : Prop where
   stopCalled : (x.σ n0).stop ≠ .idle
   quiet : Quiet (x.σ n0)
   contract : ∀ n, n0 ≤ n → ∀ l, x.ℓ n = some l → l.retiring = false
-  collFair : ∀ n, n0 ≤ n → (x.σ n).cpc ≠ .done → ∃ m, n ≤ m ∧ ∃ l, x.ℓ m = some l ∧ l.isColl = true
+  collFair : ∀ n, n0 ≤ n → collActive (x.σ n).cpc = true → ∃ m, n ≤ m ∧ ∃ l, x.ℓ m = some l ∧ l.isColl = true
   stopFair : ∀ n, n0 ≤ n → stopEnabled c (x.σ n) → ∃ m, n ≤ m ∧ ∃ l, x.ℓ m = some l ∧ l.isStop = true
   regions : NoStale (x.σ n0)
 
@@ -223,7 +230,7 @@ Every step that matters decreases it (marker ticket: 5 → 2 while the queue gro
 cells: `2n` down, at most `n` tasks up; reclaim; marker published; collector exit; join) and no
 in-contract step increases it. -/
 def mu (s : State) : Nat :=
-  stopRank s.stop + 2 * s.cells.length + (s.tasks.length - s.index) + (if s.cpc = .done then 0 else 1)
+  stopRank s.stop + 2 * s.cells.length + (s.tasks.length - s.index) + (if collActive s.cpc then 1 else 0)
 
 theorem absorb_fst_length (l : List Item) : (absorb l).1.length ≤ l.length := by
   induction l with
@@ -231,14 +238,14 @@ theorem absorb_fst_length (l : List Item) : (absorb l).1.length ≤ l.length := 
   | cons x xs ih => cases x <;> simp [absorb] <;> omega
 
 theorem mu_popCells {s : State} (hk : KInv s) {n lim : Nat} (hp : canPop s n lim = true) (pc : CPc)
-    (h1 : s.cpc ≠ .done) (h2 : pc ≠ .done) :
+    (h1 : collActive s.cpc = true) (h2 : collActive pc = true) :
     mu { popCells s n with cpc := pc } + n ≤ mu s := by
   simp only [canPop, Bool.and_eq_true, decide_eq_true_eq] at hp
   have hn := hp.1.2
   have hl := absorb_fst_length ((s.cells.take n).map (·.1))
   simp only [List.length_map, List.length_take] at hl
   have hidx := hk.idx
-  simp only [mu, GC.popCells, List.length_drop, List.length_append, if_neg h1, if_neg h2]
+  simp only [mu, GC.popCells, List.length_drop, List.length_append, h1, h2, if_true]
   omega
 
 theorem mu_mono {c : Cfg} {s s' : State} {l : Lbl} (g : Good c s) (hl : l.retiring = false)
@@ -248,10 +255,9 @@ theorem mu_mono {c : Cfg} {s s' : State} {l : Lbl} (g : Good c s) (hl : l.retiri
   | callRetire id => cases hl
   | callRetireAt id e => cases hl
   | clientTick => cases hl
-  | callStop =>
-    simp only [GC.step, stepWith] at h
-    split at h <;> try contradiction
-    rename_i hi; exact absurd hi g.called
+  | callStop => cases hl
+  | start => cases hl
+  | stopNoop => cases hl
   | stopReserve =>
     simp only [GC.step, stepWith] at h
     split at h <;> try contradiction
@@ -270,7 +276,7 @@ theorem mu_mono {c : Cfg} {s s' : State} {l : Lbl} (g : Good c s) (hl : l.retiri
     split at h <;> try contradiction
     rename_i hg
     injection h with h; subst h
-    simp [mu, hg.1, stopRank]
+    simp [mu, hg.1, hg.2, stopRank, collActive]
   | reserve id =>
     simp only [GC.step, stepWith] at h
     split at h <;> try contradiction
@@ -286,8 +292,7 @@ theorem mu_mono {c : Cfg} {s s' : State} {l : Lbl} (g : Good c s) (hl : l.retiri
     split at h <;> try contradiction
     rename_i hg
     injection h with h; subst h
-    have : s.cpc ≠ .done := by rw [hg.1]; simp
-    simp [mu, this]
+    simp [mu, hg.1, collActive]
   | pop n =>
     simp only [GC.step, stepWith] at h
     split at h <;> try contradiction
@@ -296,28 +301,28 @@ theorem mu_mono {c : Cfg} {s s' : State} {l : Lbl} (g : Good c s) (hl : l.retiri
       rename_i hp
       injection h with h; subst h
       have := mu_popCells hk hp.1 (if n = c.lim1 s.popIdx ∧ c.lim1 s.popIdx < c.batch then CPc.pop2 (c.batch - c.lim1 s.popIdx) else CPc.preScan)
-        (by rw [hpc]; simp) (by split <;> simp)
+        (by rw [hpc]; rfl) (by split <;> rfl)
       exact Nat.le_trans (Nat.le_add_right _ _) this
     · rename_i lim hpc
       split at h <;> try contradiction
       rename_i hp
       injection h with h; subst h
-      have := mu_popCells hk hp CPc.preScan (by rw [hpc]; simp) (by simp)
+      have := mu_popCells hk hp CPc.preScan (by rw [hpc]; rfl) rfl
       exact Nat.le_trans (Nat.le_add_right _ _) this
   | scanBegin =>
     simp only [GC.step, stepWith] at h
     split at h <;> try contradiction
     rename_i hg
     injection h with h; subst h
-    have : s.cpc ≠ .done := by rcases hg with hg | hg; rw [hg]; simp; rw [hg.1]; simp
-    simp [mu, this]
+    have : collActive s.cpc = true := by rcases hg with hg | hg; rw [hg]; rfl; rw [hg.1]; rfl
+    simp only [mu, this]
+    simp [collActive]
   | scanEnd m =>
     simp only [GC.step, stepWith] at h
     split at h <;> try contradiction
     rename_i hg
     injection h with h; subst h
-    have : s.cpc ≠ .done := by rw [hg.1]; simp
-    simp [mu, this]
+    simp [mu, hg.1, collActive]
   | reclaim id =>
     simp only [GC.step, stepWith] at h
     split at h <;> try contradiction
@@ -325,21 +330,20 @@ theorem mu_mono {c : Cfg} {s s' : State} {l : Lbl} (g : Good c s) (hl : l.retiri
     split at h <;> try contradiction
     split at h <;> try contradiction
     injection h with h; subst h
-    have : s.cpc ≠ .done := by rw [hpc]; simp
-    simp [mu, this]; omega
+    simp [mu, hpc, collActive]; omega
   | passEnd =>
     simp only [GC.step, stepWith] at h
     split at h <;> try contradiction
     rename_i m cnt hpc
     split at h <;> try contradiction
     injection h with h; subst h
-    have : s.cpc ≠ .done := by rw [hpc]; simp
-    simp [mu, this]
+    simp [mu, hpc, collActive]
   | exit =>
     simp only [GC.step, stepWith] at h
     split at h <;> try contradiction
+    rename_i hg
     injection h with h; subst h
-    simp [mu]
+    simp [mu, hg.1, collActive]
   | _ =>
     simp only [GC.step, stepWith] at h <;> (repeat' split at h) <;>
     first
